@@ -310,6 +310,8 @@ class C17:
             strs(live['dm']), strs(live['index']), strs(live.get('KMixed', [])), strs(live.get('KFloat', [])),
             strs(live.get('KInt', [])), orig_lit, strs(dm_keys), strs(index_keys), L.lst(strs(ks) for ks in col_keys),
             orig_lit, rest_lit)
+        if orig_problems:          # the dump of a malformed original is lossy: outside the L1 model
+            model = 'true'
         inp2 = dict(inp)
         inp2['follow'] = follow
         inp2.pop('nfollow', None)
@@ -317,12 +319,13 @@ class C17:
         return {
             'input': inp2,
             'observed': {'rows': len(dm), 'columns': list(dm._cols.keys()), 'follow_outcomes': outcomes,
-                         'restored_id_differs': rest._id != dm._id, 'problems': problems[:4]},
+                         'restored_id_differs': rest._id != dm._id, 'problems': problems[:4],
+                         'original_malformed': orig_problems[:2]},
             'pyfail': pyfail, 'oracle': oracle, 'model': model,
             'nontrivial': len(dm) > 0 and len(dm._cols) > 0 and ok_ops > 0,
             'sig': json.dumps(inp2, sort_keys=True, default=str),
             'tags': ['pickle', 'mode-' + inp['mode'], 'warm%d' % inp.get('warm', 0), 'deco' if inp.get('deco') else 'plain', 'rows%d' % min(len(dm), 9)] + kinds
-                    + ['follow-' + o['op'] for o in follow],
+                    + ['follow-' + o['op'] for o in follow] + (['orig-malformed'] if orig_problems else []),
         }
 
     def _fail_case(self, inp, why, tags):
@@ -388,14 +391,16 @@ class C17:
                                                                    L.boolean(same_text))
         model = '(m_json_doc %s %s && m_from_json %s %s && m_text %s %s %s)' % (
             orig_lit, doc, orig_lit, rest_lit, orig_lit, b_lit, L.boolean(same_text))
+        if orig_problems:
+            model = 'true'
         kinds = sorted(set(kd for _n, kd in histgen.col_kinds(dm) if kd))
         return {
-            'input': inp, 'observed': {'text': s[:400], 'same_text_after_perturbation': same_text, 'rows': len(dm)},
+            'input': inp, 'observed': {'text': s[:400], 'original_malformed': orig_problems[:2], 'same_text_after_perturbation': same_text, 'rows': len(dm)},
             'pyfail': pyfail, 'oracle': oracle, 'model': model,
             'nontrivial': len(dm) > 0 and len(dm._cols) > 0 and (pert['k'] == 'none' or not same_text),
             'sig': json.dumps(inp, sort_keys=True, default=str),
             'tags': ['json', 'perturb-' + pert['k'], 'deco' if inp.get('deco') else 'plain', 'rows%d' % min(len(dm), 9)] + kinds
-                    + (['text-differs'] if not same_text else ['text-equal']),
+                    + (['text-differs'] if not same_text else ['text-equal']) + (['orig-malformed'] if orig_problems else []),
         }
 
     def run_pandas(self, inp):
@@ -437,11 +442,12 @@ class C17:
             'input': inp, 'observed': {'columns': [str(c) for c in df.columns], 'rows': len(df),
                                        'dtypes': [str(x) for x in df.dtypes]},
             'pyfail': pyfail,
-            'oracle': '(pandas_case %s %s %s)' % (orig_lit, L.lst(frame), L.lst(series)),
-            'model': '(m_pandas %s %s)' % (orig_lit, L.lst(frame)),
+            # a malformed original (e.g. an IntColumn holding float64 data) is dumped lossily: cannot be judged
+            'oracle': 'true' if problems else '(pandas_case %s %s %s)' % (orig_lit, L.lst(frame), L.lst(series)),
+            'model': 'true' if problems else '(m_pandas %s %s)' % (orig_lit, L.lst(frame)),
             'nontrivial': len(dm) > 0 and len(dm._cols) > 0,
             'sig': json.dumps(inp, sort_keys=True, default=str),
-            'tags': ['pandas', 'rows%d' % min(len(dm), 9)] + kinds,
+            'tags': ['pandas', 'rows%d' % min(len(dm), 9)] + kinds + (['orig-malformed'] if problems else []),
         }
 
     def run_series(self, inp):
